@@ -43,6 +43,28 @@ struct colvars_verif_access {
         }
       }
     }
+    // reference counts: every enabled capability is held at least once by each live requirement on it (a count that is too low
+    // lets it be switched off while something still needs it)
+    for (size_t r = 0; r < n; r++) {
+      if (!o->feature_states[r].enabled) continue;
+      int needed = 0;
+      for (size_t f = 0; f < n; f++) {
+        if (!o->feature_states[f].enabled || f == r) continue;
+        for (int q : F[f]->requires_self) if (q == (int)r) needed++;
+        for (int q : o->feature_states[f].alternate_refs) if (q == (int)r) needed++;
+      }
+      for (colvardeps *p : o->parents) {
+        if (!p || p->feature_states.empty() || !p->feature_states[0].enabled) continue;
+        std::vector<colvardeps::feature *> const &PF = p->features();
+        for (size_t f = 0; f < PF.size() && f < p->feature_states.size(); f++) {
+          if (!p->feature_states[f].enabled) continue;
+          for (int q : PF[f]->requires_children) if (q == (int)r) needed++;
+        }
+      }
+      if (o->feature_states[r].ref_count < needed)
+        rep << o->description << ": '" << F[r]->description << "' has ref_count " << o->feature_states[r].ref_count
+            << " but " << needed << " live requirements hold it\n";
+    }
     // children / parents mutually consistent
     for (colvardeps *c : o->children) {
       if (!c) { rep << o->description << ": null child\n"; continue; }
